@@ -164,7 +164,6 @@ theorem constants_named_correctly :
 theorem constants_cover_grid :
     ∀ m ∈ [-3, -2, -1, 0, 1, 2, 3], ∀ s ∈ [-3, -2, -1, 0, 1, 2, 3],
       (Gen.constants.any (fun r => r.mm == m && r.s == s)) = true := by decide
-/-- … with exactly one name per grid point, and no declaration was dropped by the generator -/
 /-- the generator parsed every `pub const … : Unit` the file declares (nothing escaped the table). How MANY there are (49 today: the
 7×7 grid) is a snapshot, not a requirement — a further, correctly named constant is conformant — and lives in Lemmas/C01Snapshot.lean -/
 theorem constants_count : Gen.declaredCount = Gen.constants.length := by decide
